@@ -97,10 +97,10 @@ func recvName(fd *ast.FuncDecl) string {
 }
 
 type c19Result struct {
-	Adapter      string   `json:"adapter"`
-	Cases        int      `json:"cases"`
-	Distinct     []string `json:"distinct"`
-	Violations   []struct {
+	Adapter    string   `json:"adapter"`
+	Cases      int      `json:"cases"`
+	Distinct   []string `json:"distinct"`
+	Violations []struct {
 		Sig    string      `json:"sig"`
 		Msg    string      `json:"msg"`
 		Detail interface{} `json:"detail"`
